@@ -287,3 +287,91 @@ Ltac arr_facts :=
          end.
 
 Ltac arr_arith := arr_facts; autorewrite with zlen in *; lia.
+
+(* ---------- columns of 2-D arrays ---------- *)
+Lemma zrange_nth : forall n lo k dv, (k < n)%nat -> nth k (zrange lo n) dv = lo + Z.of_nat k.
+Proof.
+  induction n; intros lo k dv H; [lia|]. destruct k; simpl; [lia|].
+  rewrite IHn by lia. lia.
+Qed.
+Lemma zrange_in : forall n lo p, In p (zrange lo n) -> lo <= p < lo + Z.of_nat n.
+Proof.
+  induction n; simpl; intros lo p Hp; [contradiction|].
+  destruct Hp as [<-|Hp]; [lia|]. apply IHn in Hp. lia.
+Qed.
+
+Lemma zlen_column : forall n c d j, zlen (column n c d j) = Z.max 0 n.
+Proof. intros. unfold column, zlen. rewrite map_length, zrange_length. lia. Qed.
+
+Lemma nthZ_column : forall n c d j k, 0 <= k < n ->
+  nthZ (column n c d j) k = nthZ d (k * c + j).
+Proof.
+  intros n c d j k H. unfold column, nthZ at 1.
+  set (g := fun i : Z => nthZ d (i * c + j)).
+  rewrite (nth_indep _ dflt (g 0)) by (rewrite map_length, zrange_length; lia).
+  rewrite map_nth. rewrite zrange_nth by lia. unfold g.
+  replace (0 + Z.of_nat (Z.to_nat k)) with k by lia. reflexivity.
+Qed.
+
+(* blocks of constant length *)
+Lemma nth_flat_map_blocks : forall {A} (f : Z -> list A) (c : nat) (l : list Z) (i jj : nat) dv d0,
+  (forall p, length (f p) = c) -> (i < length l)%nat -> (jj < c)%nat ->
+  nth (i * c + jj) (flat_map f l) dv = nth jj (f (nth i l d0)) dv.
+Proof.
+  intros A f c l. induction l as [|p r IH]; intros i jj dv d0 Hc Hi Hj; simpl in Hi; [lia|].
+  simpl flat_map. destruct i.
+  - simpl. rewrite app_nth1 by (rewrite Hc; lia). reflexivity.
+  - rewrite app_nth2 by (rewrite Hc; simpl; lia). rewrite Hc.
+    replace (S i * c + jj - c)%nat with (i * c + jj)%nat by (simpl; lia).
+    simpl nth. apply IH; auto; lia.
+Qed.
+
+Lemma nthZ_set_col : forall n c j d col i jj, 0 <= i < n -> 0 <= jj < c ->
+  nthZ (set_col n c j d col) (i * c + jj) = if jj =? j then nthZ col i else nthZ d (i * c + jj).
+Proof.
+  intros n c j d col i jj Hi Hj. unfold set_col, nthZ at 1.
+  replace (Z.to_nat (i * c + jj)) with (Z.to_nat i * Z.to_nat c + Z.to_nat jj)%nat by nia.
+  rewrite (nth_flat_map_blocks _ (Z.to_nat c) _ _ _ _ 0);
+    [| intros; rewrite map_length, zrange_length; reflexivity | rewrite zrange_length; lia | lia].
+  rewrite zrange_nth by lia.
+  set (g := fun jj0 : Z => if jj0 =? j then nthZ col (0 + Z.of_nat (Z.to_nat i))
+                           else nthZ d ((0 + Z.of_nat (Z.to_nat i)) * c + jj0)).
+  rewrite (nth_indep _ dflt (g 0)) by (rewrite map_length, zrange_length; lia).
+  change (map _ (zrange 0 (Z.to_nat c))) with (map g (zrange 0 (Z.to_nat c))).
+  rewrite map_nth, zrange_nth by lia. unfold g.
+  replace (0 + Z.of_nat (Z.to_nat jj)) with jj by lia.
+  replace (0 + Z.of_nat (Z.to_nat i)) with i by lia. reflexivity.
+Qed.
+
+Lemma column_set_col_same : forall n c j d col, 0 <= j < c -> zlen col = n ->
+  column n c (set_col n c j d col) j = col.
+Proof.
+  intros n c j d col Hj Hl. unfold column.
+  transitivity (map (fun i => nthZ col i) (zrange 0 (Z.to_nat n))).
+  - apply map_ext_in. intros i Hi. apply zrange_in in Hi.
+    rewrite nthZ_set_col by lia. rewrite Z.eqb_refl. reflexivity.
+  - unfold zlen in Hl. subst n. rewrite Nat2Z.id. clear Hj.
+    assert (G : forall (l : list sval) pre, map (fun i => nthZ (pre ++ l) i) (zrange (Z.of_nat (length pre)) (length l)) = l).
+    { induction l as [|x r IH]; intros pre; simpl; [reflexivity|]. f_equal.
+      - unfold nthZ. rewrite Nat2Z.id, app_nth2 by lia. rewrite Nat.sub_diag. reflexivity.
+      - specialize (IH (pre ++ [x])). rewrite <- app_assoc in IH. simpl in IH.
+        rewrite app_length in IH. simpl in IH.
+        replace (Z.of_nat (length pre + 1)) with (Z.of_nat (length pre) + 1) in IH by lia. exact IH. }
+    exact (G col []).
+Qed.
+
+Lemma column_set_col_other : forall n c j j' d col, 0 <= j' < c -> j' <> j ->
+  column n c (set_col n c j d col) j' = column n c d j'.
+Proof.
+  intros n c j j' d col Hj Hne. unfold column. apply map_ext_in. intros i Hi.
+  apply zrange_in in Hi. rewrite nthZ_set_col by lia.
+  assert ((j' =? j) = false) by (apply Z.eqb_neq; exact Hne). rewrite H. reflexivity.
+Qed.
+
+Lemma coerce_cells_nonneg : forall d, nonneg_ints d -> coerce_cells DInt d = d.
+Proof.
+  unfold coerce_cells. induction 1 as [|x r [z [-> Hz]] Hr IH]; simpl; [reflexivity|].
+  rewrite IH. reflexivity.
+Qed.
+
+#[export] Hint Rewrite zlen_column : zlen.
